@@ -18,6 +18,51 @@ from ..poly import P
 FN = "functions.gen.SC_apply"
 
 
+_SC_CACHE = {}
+
+
+def _sc_bind_by_dependence(prog):
+    """{(run method, tolerance parameter): (verdict, text)} from the dependence (taint) interpretation of every SSI / pLSCF run():
+    which entries of the user's `sc` dictionary the value handed to each tolerance parameter of SC_apply depends on"""
+    key = id(prog)
+    if key in _SC_CACHE:
+        return _SC_CACHE[key]
+    from . import C09
+    from ..taint import TaintInterp, labels
+    out = {}
+    SC = "pyoma2.functions.gen.SC_apply"
+    pos = astq.params_of(prog.func(FN).node)[0]
+    for cq, method, unc in C09.CLASSES:
+        ci = prog.cls(cq)
+        runf = prog.find_method(ci, "run")
+        ti = TaintInterp(prog)
+        try:
+            ti.call_function(runf, [], {}, bound=C09.make_me(prog, ci, cq, method, unc))
+        except AnalysisError:
+            continue
+        calls = [env for q, env, node in ti.call_log if q == SC]
+        for p_ in pos[6:9]:
+            verdict, text = None, ""
+            for env in calls:
+                ls = labels(env.get(p_))
+                got = sorted(l[3:] for l in ls if l.startswith("sc:"))
+                if "mix:order" in ls:
+                    v, t = False, f"`{p_}` receives one of {got} - whichever comes at that position in the user's `sc` dictionary: the tolerances are handed over in the order of that dictionary, not by name"
+                elif got == [p_]:
+                    v, t = True, f"`{p_}` <- sc[{p_!r}] (dependence analysis of run())"
+                elif ti.unknown:
+                    v, t = None, f"`{p_}` <- {got}; not decided: the analysis did not follow {ti.unknown[0][1]}"
+                else:
+                    v, t = False, f"`{p_}` depends on sc entries {got}, expected ['{p_}'] only"
+                if verdict is None or v is False:
+                    verdict, text = v, t
+            prev = out.get((runf.qual, p_))
+            if prev is None or verdict is False or (prev[0] is True and verdict is None):
+                out[(runf.qual, p_)] = (verdict, text)
+    _SC_CACHE[key] = out
+    return out
+
+
 def check(prog, run):
     run.rule("R-neighbour", "SC_apply compares column o with column o-1; match = nanargmin|f_prev - f_i|, one index for f, xi, phi; "
              "|df|/f < err_fn and |dxi|/xi < err_xi and 1-MAC < err_phi; range(ordmin, ordmax+1, step); first column skipped", 12)
@@ -27,14 +72,14 @@ def check(prog, run):
     pos_ = astq.params_of(sc_fi.node)[0]
     want_ = {pos_[6]: {"self.run_params.sc['err_fn']"}, pos_[7]: {"self.run_params.sc['err_xi']"}, pos_[8]: {"self.run_params.sc['err_phi']"}}
     nb_ = 0
-    for ci in prog.classes.values():
-        if not ci.mod.startswith("pyoma2.algorithms"):
-            continue
-        m = ci.methods.get("run")
-        if m is None:
-            continue
+    for ci, m in prog.class_methods("pyoma2.algorithms", "run"):
         for c, p_, ok, detail in astq.handover(prog, m, sc_fi.qual, want_):
             nb_ += 1
+            if ok is None:
+                # not readable off the call as written (spread of a computed dictionary ...): the dependence analysis of the whole run()
+                tv = _sc_bind_by_dependence(prog).get((m.qual, p_))
+                if tv is not None and tv[0] is not None:
+                    ok, detail = tv
             run.ob("R-bind", m.qual, f"sc -> SC_apply.{p_}", ok, detail, witness=detail[:90], file=rel(prog.mods[m.mod].path), node=c, config=p_)
     if not nb_:
         run.ob("R-bind", "pyoma2.algorithms", "callers of SC_apply", None, "no run() method calling SC_apply found")
